@@ -28,6 +28,10 @@ RV_CORPUS = [
     ("store-load-same-block", "lui x3, 4\naddi x1, x0, 0x7f\nsb x1, 1(x3)\nlh x2, 0(x3)\nsw x2, 4(x3)\nlw x4, 4(x3)\nlw x5, 260(x3)\nlw x6, 4(x3)\n"),
     ("empty", ""),
     ("misaligned-with-cache", "lui x3, 4\nsw x3, 0(x3)\nlw x1, 1(x3)\naddi x2, x0, 2\n"),
+    # stores that spill into the next word (legal without a data cache) and stores through a negative effective address
+    ("spilling-stores", "lui x3, 4\nli x1, 0x11223344\nsw x1, 0(x3)\nsw x1, 4(x3)\nsw x1, 2(x3)\nsh x1, 7(x3)\nsw x1, 9(x3)\nsb x1, 12(x3)\nsw x1, -4(x0)\nsw x3, -4(x0)\nlw x5, 4(x3)\n"),
+    # four conflicting blocks in one set, then hits in the middle of the recency order
+    ("middle-hits", "lui x3, 4\nlw x1, 0(x3)\nlw x2, 64(x3)\nlw x4, 128(x3)\nlw x5, 192(x3)\nlw x6, 64(x3)\nlw x7, 128(x3)\nlw x8, 0(x3)\nsw x8, 64(x3)\nlw x9, 256(x3)\nlw x10, 64(x3)\n"),
 ]
 RV_MORE = [
     ("div-rem", "addi x1, x0, -7\naddi x2, x0, 2\ndiv x3, x1, x2\nrem x4, x1, x2\ndivu x5, x1, x0\n"),
@@ -40,6 +44,8 @@ CACHES = {
     "wb-both": (rv.cache_opts(1, 0, 1, "wb", "lru", 2), rv.cache_opts(0, 1, 2, "wb", "plru", 1)),
     "wt-both": (rv.cache_opts(0, 1, 2, "wt", "plru", 3), rv.cache_opts(1, 0, 1, "wb", "lru", 2)),
     "wb-assoc": (rv.cache_opts(0, 0, 4, "wb", "plru", 1), rv.cache_opts(0, 0, 2, "wb", "lru", 0)),
+    "lru4": (rv.cache_opts(0, 0, 4, "wb", "lru", 2), rv.cache_opts(0, 1, 4, "wb", "lru", 1)),
+    "wt-lru3": (rv.cache_opts(0, 1, 3, "wt", "lru", 1), rv.cache_opts(1, 0, 3, "wb", "lru", 0)),
 }
 TOY_CORPUS = [
     ("sum", ".data\nn: .word 3\nr: .word 0\n.text\nLDA n\nBRZ end\nloop:\nLDA r\nADD n\nSTO r\nLDA n\nDEC\nSTO n\nBRZ end\nZRO\nBRZ loop\nend:\n"),
@@ -80,50 +86,65 @@ def advance(sim, kind, mode):
     return True
 
 
-def trace(kind, text, mode, cache, schedule):
-    """schedule: {step index (0 = before the first step): [function names to call]}. Returns the list of state digests
-    after every step plus the final digest of state + all inspection results."""
+def observe(sim):
+    """Everything a user can observe: the result of every inspection function (registers, memories, caches, statistics,
+    visualisation lists, metrics text, output, exit code, done, has-instructions)."""
+    funcs = insp.functions(sim)
+    return tuple((nm, canon(f())) for nm, f in funcs.items())
+
+
+def run_to(kind, text, mode, cache, schedule, stop):
+    """Run with the inspection calls of `schedule` ({step index: [function names]}, 0 = before the first step) and stop
+    after `stop` steps (None = run to the end). Returns (steps taken, observation at the stop point, raw-state digest)."""
     sim = make(kind, text, mode, cache)
     funcs = insp.functions(sim)
-    out = []
     n = 0
     while True:
         for name in schedule.get(n, ()):
             funcs[name]()
-        out.append(digest(insp.state_canon(sim)))
-        if n >= MAXSTEPS or not advance(sim, kind, mode):
+        if (stop is not None and n >= stop) or n >= MAXSTEPS or not advance(sim, kind, mode):
             break
         n += 1
-    for name in schedule.get("end", ()):
-        funcs[name]()
-    final = digest(tuple((nm, canon(f())) for nm, f in funcs.items()))
-    return out, final, n
+    raw = digest(insp.state_canon(sim))
+    return n, observe(sim), raw
 
 
 def shard_fn(shard):
     kind, pname, text, mode, cache, bound, part, parts = shard
     p = Partial()
-    base, base_final, nsteps = trace(kind, text, mode, cache, {})
+    nsteps, base_final, base_raw = run_to(kind, text, mode, cache, {}, None)
     names = list(insp.functions(make(kind, text, mode, cache)))
     tag = f"{kind}/{pname}/{mode}/{cache}"
+    probes = {}
 
-    def run_dev(schedule, desc, size):
-        got, final, n = trace(kind, text, mode, cache, schedule)
-        p.evaluations += 1
+    def baseline(j):
+        if j not in probes:
+            probes[j] = run_to(kind, text, mode, cache, {}, j)
+        return probes[j]
+
+    def run_dev(schedule, desc, size, last):
+        """The deviated run is probed (all inspection functions) one step after its last deviation and at the end, and
+        compared with the uninspected run probed at the same points."""
+        bad = None
+        for stop in sorted({min(last + 1, nsteps), None}, key=lambda x: (x is None, x)):
+            n, obs, raw = run_to(kind, text, mode, cache, schedule, stop)
+            bn, bobs, braw = baseline(stop) if stop is not None else (nsteps, base_final, base_raw)
+            p.evaluations += 1
+            if n != bn:
+                bad = f"run length changed: {n} steps instead of {bn}"
+            elif obs != bobs:
+                k = next(nm for (nm, a), (_n2, b) in zip(obs, bobs) if a != b)
+                bad = f"{k} {'at the end' if stop is None else 'after step ' + str(stop)} differs from the run without inspection calls"
+            elif raw != braw:
+                # internal state differs although nothing observable does (e.g. a filled representation cache): not a violation
+                p.counters["internal-state-differs-observables-equal"] += 1
+            if bad:
+                break
         if nsteps > 1:
             p.nontrivial += 1
-        bad = None
-        if n != nsteps or len(got) != len(base):
-            bad = f"run length changed: {n} steps instead of {nsteps}"
-        else:
-            k = next((i for i in range(len(base)) if got[i] != base[i]), None)
-            if k is not None:
-                bad = f"state after step {k} differs from the run without inspection calls"
-            elif final != base_final:
-                bad = "final inspection results differ from the run without inspection calls"
         if bad:
             p.violation(dict(oracle="inspection-purity", field="later-result-changed"),
-                        dict(kind="inspect", arch=kind, program=pname, mode=mode, cache=cache, schedule={str(k): v for k, v in schedule.items()}),
+                        dict(kind="inspect", arch=kind, program=pname, mode=mode, cache=cache, schedule={str(k): v for k, v in schedule.items()}, last=last),
                         f"{tag}: {desc}: {bad}", size=size)
 
     # bound 1: one function, called once or twice, after every step index
@@ -132,10 +153,13 @@ def shard_fn(shard):
             continue
         for name in names:
             for k in (1, 2):
-                run_dev({i: [name] * k}, f"{name} x{k} after step {i}", (1, i, name, k))
-    # saturated schedule: everything twice after every step (what the GUI does)
+                run_dev({i: [name] * k}, f"{name} x{k} after step {i}", (1, i, name, k), i)
+    # saturated schedule up to step i (what the GUI does), probed one step later, for every i; and over the whole run
+    for i in range(nsteps + 1):
+        if i % parts != part:
+            continue
+        run_dev({k: [nm for nm in names for _ in (0, 1)] for k in range(i + 1)}, f"every function twice after every step up to step {i}", (3, i), i)
     if part == 0:
-        run_dev({i: [nm for nm in names for _ in (0, 1)] for i in range(nsteps + 1)}, "every function twice after every step", (3, 0))
         p.counters["saturated"] += 1
     if bound >= 2:
         # bound 2: two different functions at two (possibly equal) step indices, coarse step grid
@@ -147,7 +171,7 @@ def shard_fn(shard):
                 sched = {i: [a]}
                 sched.setdefault(j, [])
                 sched[j] = sched[j] + [b]
-                run_dev(sched, f"{a} after step {i}, {b} after step {j}", (2, i, j, a, b))
+                run_dev(sched, f"{a} after step {i}, {b} after step {j}", (2, i, j, a, b), j)
         p.counters["pairs"] += 1
     p.sample(dict(kind="inspect", arch=kind, program=pname, mode=mode, cache=cache, schedule={"2": [names[1], names[1]]}))
     return p
@@ -157,11 +181,14 @@ def replay(case):
     kind, pname, mode, cache = case["arch"], case["program"], case["mode"], case["cache"]
     corpus = dict(TOY_CORPUS if kind == "toy" else RV_CORPUS + RV_MORE)
     text = corpus[pname]
-    schedule = {(int(k) if k != "end" else k): v for k, v in case["schedule"].items()}
-    base, base_final, nsteps = trace(kind, text, mode, cache, {})
-    got, final, n = trace(kind, text, mode, cache, schedule)
-    if got != base or final != base_final or n != nsteps:
-        return [(dict(oracle="inspection-purity", field="later-result-changed"), f"{kind}/{pname}/{mode}/{cache}: schedule {schedule} changes a later result")]
+    schedule = {int(k): v for k, v in case["schedule"].items()}
+    nsteps, base_final, _raw = run_to(kind, text, mode, cache, {}, None)
+    last = case.get("last", max(schedule))
+    for stop in (min(last + 1, nsteps), None):
+        n, obs, _r = run_to(kind, text, mode, cache, schedule, stop)
+        bn, bobs, _br = run_to(kind, text, mode, cache, {}, stop)
+        if n != bn or obs != bobs:
+            return [(dict(oracle="inspection-purity", field="later-result-changed"), f"{kind}/{pname}/{mode}/{cache}: schedule {schedule} changes a later result")]
     return []
 
 
@@ -171,8 +198,9 @@ def run(ctx):
                 "step index (bound 1); all ordered pairs of different functions on a step grid (bound 2, thorough); plus the saturated schedule (every "
                 "function twice after every step, the GUI's behaviour). Corpus: programs with loads/stores through caches, conflict misses, ecalls, a loop, "
                 "a call, a fault, hazards, a misaligned access x {single-cycle, five-stage, five-stage without hazard detection} x 4 cache configurations; "
-                "TOY programs stepped by whole steps and by half cycles. Oracle: the digest of the complete canonical state after every later step and "
-                "the results of all inspection functions at the end equal the baseline's. Non-trivial = program with more than one step.")
+                "TOY programs stepped by whole steps and by half cycles. Oracle (observables only): every deviated run is probed with ALL inspection functions one step "
+                "after its last deviation and at the end, and must equal the uninspected run probed at the same points; a difference in raw internal state with "
+                "equal observables (say, a filled representation cache) is counted, not reported. The saturated schedule is applied up to every step index. Non-trivial = program with more than one step.")
     ctx.assumptions += ["wall-clock fields and the two timing lines of the metrics text are masked"]
     shards = []
     corpus = RV_CORPUS + (RV_MORE if thorough else [])
@@ -180,7 +208,8 @@ def run(ctx):
     k = ctx.seed
     for pname, text in corpus:
         for mode in modes:
-            caches = list(CACHES) if thorough else [list(CACHES)[k % 4], list(CACHES)[(k + 1) % 4]]
+            nc = len(CACHES)
+            caches = list(CACHES) if thorough else [list(CACHES)[k % nc], list(CACHES)[(k + 1) % nc], list(CACHES)[(k + 3) % nc]]
             k += 1
             for cache in caches:
                 for part in range(4):
